@@ -6,8 +6,11 @@
 package kit
 
 import (
+	"context"
 	"errors"
 	"reflect"
+
+	"github.com/junioryono/godi/v4"
 
 	"github.com/junioryono/godi/v4/zzverif/vrt"
 )
@@ -35,6 +38,14 @@ type Inst struct {
 
 	Args     []*Inst // every instance received, in declaration order (groups flattened)
 	ArgCount []int   // per declared dependency: number of instances (-1: nil / zero value)
+
+	// built-in injectables received
+	Ctx      context.Context
+	Scope    godi.Scope
+	Prov     godi.Provider
+	HasCtx   bool
+	HasScope bool
+	HasProv  bool
 
 	Closed    int
 	CloseSeq  []int
@@ -126,6 +137,17 @@ func tick() int {
 
 func recordArgs(in *Inst, args []any) {
 	for _, a := range args {
+		switch x := a.(type) {
+		case godi.Scope: // before context.Context: a Scope is not a Context, a Provider is not a Scope
+			in.Scope, in.HasScope = x, true
+			continue
+		case godi.Provider:
+			in.Prov, in.HasProv = x, true
+			continue
+		case context.Context:
+			in.Ctx, in.HasCtx = x, true
+			continue
+		}
 		insts, n := argInfo(a)
 		in.Args = append(in.Args, insts...)
 		in.ArgCount = append(in.ArgCount, n)
@@ -191,6 +213,7 @@ type VoidCall struct {
 	Variant int
 	Args    []*Inst
 	ArgCount []int
+	In      *Inst // carries the built-ins received
 }
 
 var VoidLog []*VoidCall
@@ -214,7 +237,7 @@ func mkVoid(slot, variant, kind int, args ...any) error {
 	vc := &VoidCall{Slot: slot, Variant: variant}
 	tmp := &Inst{}
 	recordArgs(tmp, args)
-	vc.Args, vc.ArgCount = tmp.Args, tmp.ArgCount
+	vc.Args, vc.ArgCount, vc.In = tmp.Args, tmp.ArgCount, tmp
 	vc.Seq = tick()
 	VoidLog = append(VoidLog, vc)
 	Done[kind][slot]++
